@@ -1,7 +1,584 @@
-//! `crypto` driver
-use std::collections::HashMap;
+//! `crypto` driver (C16): action lists executed against 3 real `CryptographicBuiltin` instances
+//! (rustdds::verif::crypto_rig).  A symbolic `Decode` with tamper class t is refined here by EVERY
+//! byte (every bit for MACs) of the corresponding field of the serialized RTPS message; the
+//! outcome classes of all these concrete decodes are counted in one trace event.
+//!
+//! modes:  replay --in specs.jsonl   (behaviours dumped by TLC from CryptoKeys.tla)
+//!         random --seed --runs      (systematic sweep level x kind x OA x key length x direction x
+//!                                    payload lengths 0..67, random registration orders / omissions /
+//!                                    stray tokens, all receivers, all tamper classes)
 
-pub fn main(_mode: &str, _opt: &HashMap<String, String>) -> i32 {
-    eprintln!("crypto driver: not implemented");
-    2
+use std::collections::HashMap;
+use std::panic::{catch_unwind, AssertUnwindSafe};
+
+use rand::{rngs::StdRng, seq::SliceRandom, Rng, SeedableRng};
+use rustdds::verif::crypto_rig::{CryptoRig, Encoded, LocalCfg, Outcome};
+use serde::{Deserialize, Serialize};
+use serde_json::{json, Value};
+
+use crate::util;
+
+#[derive(Clone, Debug, Serialize, Deserialize)]
+pub struct Cfg {
+    pub lvl: String,  // payload | submsg | msg
+    pub kind: String, // gmac | gcm
+    pub oa: bool,
+    pub k256: bool,
+    pub dir: String, // w2r | r2w
+    #[serde(default, skip_serializing_if = "Option::is_none")]
+    pub other: Option<String>, // protection of the endpoint level not under test: same | none | diff
+}
+
+#[derive(Clone, Debug, Serialize, Deserialize, Default)]
+pub struct Act {
+    pub a: String,
+    #[serde(default)]
+    pub p: usize,
+    #[serde(default)]
+    pub q: usize,
+    #[serde(default)]
+    pub d: usize,
+    #[serde(default)]
+    pub r: usize,
+    #[serde(default)]
+    pub s: usize,
+    #[serde(default)]
+    pub c: usize,
+    #[serde(default)]
+    pub t: String,
+    #[serde(default)]
+    pub to: Vec<usize>,
+    #[serde(default)]
+    pub frame: String,
+    #[serde(default)]
+    pub al: bool,
+    #[serde(default, skip_serializing_if = "Option::is_none")]
+    pub len: Option<usize>,
+    #[serde(default, skip_serializing_if = "Option::is_none")]
+    pub expect: Option<String>,
+}
+
+#[derive(Clone, Debug, Serialize, Deserialize)]
+pub struct RunSpec {
+    pub cfg: Cfg,
+    pub senders: Vec<usize>,
+    pub acts: Vec<Act>,
+}
+
+fn lvl_no(l: &str) -> u8 {
+    match l {
+        "payload" => 0,
+        "submsg" => 1,
+        _ => 2,
+    }
+}
+fn frame_no(f: &str) -> u8 {
+    match f {
+        "data" => 0,
+        "frag" => 1,
+        _ => 2,
+    }
+}
+
+fn local_cfg(cfg: &Cfg, senders: &[usize], p: usize, k: usize) -> LocalCfg {
+    let kind = if cfg.kind == "gcm" { 2 } else { 1 };
+    let other = cfg.other.clone().unwrap_or_else(|| ["same", "none", "diff"][k % 3].to_string());
+    let okind = match other.as_str() {
+        "same" => kind,
+        "none" => 0,
+        _ => 3 - kind,
+    };
+    let writer = senders.contains(&p) == (cfg.dir == "w2r");
+    match cfg.lvl.as_str() {
+        "msg" => LocalCfg { writer, rtps: kind, rtps_oa: cfg.oa, sub: okind, sub_oa: false, pay: okind, k256: cfg.k256 },
+        "submsg" => LocalCfg { writer, rtps: 0, rtps_oa: false, sub: kind, sub_oa: cfg.oa, pay: okind, k256: cfg.k256 },
+        _ => LocalCfg { writer, rtps: 0, rtps_oa: false, sub: okind, sub_oa: false, pay: kind, k256: cfg.k256 },
+    }
+}
+
+/// concrete user payload length for an Encode of the model: `al` is honoured where alignment
+/// matters (payload level, DATAFRAG), otherwise any length 0..67
+fn pick_len(k: usize, c: usize, lvl: u8, frame: u8, al: bool) -> usize {
+    let h = (k.wrapping_mul(2654435761usize).wrapping_add(c * 97)) >> 3;
+    if lvl == 0 || frame == 1 {
+        if al {
+            4 * (h % 17)
+        } else {
+            (4 * (h % 17) + 1 + (h / 17) % 3).min(67)
+        }
+    } else {
+        h % 68
+    }
+}
+
+fn plain_bytes(k: usize, len: usize) -> Vec<u8> {
+    (0..len).map(|i| (i as u64 * 31 + k as u64 * 7 + 13) as u8).collect()
+}
+
+// ------------------------------------------------------------------ layout of the encoded form
+#[derive(Debug, Default, Clone)]
+struct Layout {
+    kind: (usize, usize),
+    keyid: (usize, usize),
+    session: (usize, usize),
+    iv: (usize, usize),
+    body: (usize, usize),
+    cmac: (usize, usize),
+    rcount: (usize, usize),
+    /// receiver-specific MAC entries: start offsets (key id 4 bytes, mac 16 bytes)
+    entries: Vec<usize>,
+    /// offset of the postfix submessage header (submessage / message level)
+    postfix: usize,
+    ok: bool,
+}
+
+fn round4(n: usize) -> usize {
+    (n + 3) & !3
+}
+
+fn layout(lvl: u8, frame: u8, e: &Encoded, gcm: bool) -> Layout {
+    let w = &e.wire;
+    let mut l = Layout::default();
+    if lvl == 0 {
+        if e.enc_len < 40 {
+            return l;
+        }
+        let off = match frame {
+            0 => w.len() - round4(e.enc_len),
+            1 => w.len() - e.enc_len,
+            _ => 0,
+        };
+        let end = off + e.enc_len;
+        l.kind = (off, off + 4);
+        l.keyid = (off + 4, off + 8);
+        l.session = (off + 8, off + 12);
+        l.iv = (off + 12, off + 20);
+        l.body = (off + 20, end - 20);
+        l.cmac = (end - 20, end - 4);
+        l.rcount = (end - 4, end);
+        l.ok = true;
+        return l;
+    }
+    // walk the submessages
+    let mut subs = vec![]; // (id, start, content_start, end)
+    let mut o = 20;
+    while o + 4 <= w.len() {
+        let id = w[o];
+        let le = w[o + 1] & 1 == 1;
+        let mut n = if le { u16::from_le_bytes([w[o + 2], w[o + 3]]) } else { u16::from_be_bytes([w[o + 2], w[o + 3]]) } as usize;
+        if n == 0 && id != 0x01 && id != 0x09 {
+            n = w.len() - o - 4;
+        }
+        let end = (o + 4 + n).min(w.len());
+        subs.push((id, o, o + 4, end));
+        o = end;
+    }
+    let (pre_id, post_id) = if lvl == 1 { (0x31u8, 0x32u8) } else { (0x33u8, 0x34u8) };
+    if subs.len() < 3 || subs[0].0 != pre_id || subs[subs.len() - 1].0 != post_id {
+        return l;
+    }
+    let pc = subs[0].2;
+    l.kind = (pc, pc + 4);
+    l.keyid = (pc + 4, pc + 8);
+    l.session = (pc + 8, pc + 12);
+    l.iv = (pc + 12, pc + 20);
+    let bstart = subs[0].3;
+    let post = subs[subs.len() - 1];
+    l.body = (if gcm { bstart + 4 } else { bstart }, post.1);
+    l.postfix = post.1;
+    l.cmac = (post.2, post.2 + 16);
+    l.rcount = (post.2 + 16, post.2 + 20);
+    let cnt = u32::from_be_bytes([w[post.2 + 16], w[post.2 + 17], w[post.2 + 18], w[post.2 + 19]]) as usize;
+    for i in 0..cnt {
+        l.entries.push(post.2 + 20 + 20 * i);
+    }
+    l.ok = post.2 + 20 + 20 * cnt == w.len();
+    l
+}
+
+/// the concrete alterations that refine tamper class t: list of altered wires (+ a label)
+fn alterations(t: &str, e: &Encoded, l: &Layout, mine: Option<usize>, alt: Option<&Encoded>) -> Vec<(Vec<u8>, (usize, u8))> {
+    let w = &e.wire;
+    let mut out = vec![];
+    let bytes = |rg: (usize, usize), masks: &[u8], out: &mut Vec<(Vec<u8>, (usize, u8))>| {
+        for o in rg.0..rg.1 {
+            for m in masks {
+                let mut x = w.clone();
+                x[o] ^= *m;
+                out.push((x, (o, *m)));
+            }
+        }
+    };
+    let bits = [1u8, 2, 4, 8, 16, 32, 64, 128];
+    match t {
+        "none" => out.push((w.clone(), (0, 0))),
+        "kind" => {
+            bytes(l.kind, &[0x01, 0xFF], &mut out);
+            // every other well-formed transformation kind, including NONE
+            let cur = w[l.kind.1 - 1];
+            for v in 0u8..=4 {
+                if v != cur {
+                    let mut x = w.clone();
+                    x[l.kind.1 - 1] = v;
+                    out.push((x, (l.kind.1 - 1, v ^ cur)));
+                }
+            }
+        }
+        "keyid" => bytes(l.keyid, &[0x01, 0x80, 0xFF], &mut out),
+        "session" => bytes(l.session, &[0x01, 0x80, 0xFF], &mut out),
+        "iv" => bytes(l.iv, &[0x01, 0x80, 0xFF], &mut out),
+        "body" => bytes(l.body, &[0x01, 0x80, 0xFF], &mut out),
+        "cmac" => bytes(l.cmac, &bits, &mut out),
+        "rcount" => bytes(l.rcount, &[0x01, 0xFF], &mut out),
+        "hdr" => bytes((4, 20), &[0x01, 0xFF], &mut out),
+        "rmac_mine" => {
+            if let Some(i) = mine {
+                let s = l.entries[i];
+                bytes((s + 4, s + 20), &bits, &mut out);
+            }
+        }
+        "rkid_mine" => {
+            if let Some(i) = mine {
+                let s = l.entries[i];
+                bytes((s, s + 4), &[0x01, 0x80, 0xFF], &mut out);
+            }
+        }
+        "drop_mine" => {
+            if let Some(i) = mine {
+                let s = l.entries[i];
+                let mut x = w.clone();
+                x.drain(s..s + 20);
+                let cnt = l.entries.len() as u32 - 1;
+                x[l.rcount.0..l.rcount.1].copy_from_slice(&cnt.to_be_bytes());
+                // postfix submessage length (big-endian submessage: flag E = 0)
+                let le = x[l.postfix + 1] & 1 == 1;
+                let n = if le { u16::from_le_bytes([x[l.postfix + 2], x[l.postfix + 3]]) } else { u16::from_be_bytes([x[l.postfix + 2], x[l.postfix + 3]]) } - 20;
+                let nb = if le { n.to_le_bytes() } else { n.to_be_bytes() };
+                x[l.postfix + 2] = nb[0];
+                x[l.postfix + 3] = nb[1];
+                out.push((x, (s, 0)));
+                // and: entry kept but moved under a zero key id
+                let mut y = w.clone();
+                y[s..s + 4].copy_from_slice(&[0, 0, 0, 0]);
+                out.push((y, (s, 0xEE)));
+            }
+        }
+        "swap_hdr" => {
+            // a second, independent encoding of the same plaintext by the same sender: other IV
+            if let Some(a) = alt {
+                if a.wire.len() == w.len() {
+                    let mut x = w.clone(); // crypto header of the other one
+                    x[l.kind.0..l.iv.1].copy_from_slice(&a.wire[l.kind.0..l.iv.1]);
+                    out.push((x, (l.kind.0, 1)));
+                    let mut y = w.clone(); // common mac of the other one
+                    y[l.cmac.0..l.cmac.1].copy_from_slice(&a.wire[l.cmac.0..l.cmac.1]);
+                    out.push((y, (l.cmac.0, 2)));
+                    let mut z = w.clone(); // body of the other one
+                    z[l.body.0..l.body.1].copy_from_slice(&a.wire[l.body.0..l.body.1]);
+                    if z != *w {
+                        out.push((z, (l.body.0, 3)));
+                    }
+                }
+            }
+        }
+        _ => {}
+    }
+    out
+}
+
+fn same_up_to_padding(got: &[u8], want: &[u8]) -> bool {
+    got == want || (got.len() > want.len() && got.len() < want.len() + 4 && got[..want.len()] == *want && got[want.len()..].iter().all(|b| *b == 0))
+}
+
+struct Ct {
+    enc: Encoded,
+    p: usize,
+    to: Vec<usize>,
+    frame: u8,
+    plain: Vec<u8>,
+    sn: i64,
+}
+
+pub fn run_one(k: usize, spec: &RunSpec, ev: &mut Vec<Value>) -> Vec<Vec<u8>> {
+    let mut rig = CryptoRig::new(4); // index 0 unused: plugins are numbered 1..3 as in the model
+    let lvl = lvl_no(&spec.cfg.lvl);
+    let gcm = spec.cfg.kind == "gcm";
+    let mut held: HashMap<(usize, usize), usize> = HashMap::new();
+    let mut cts: HashMap<usize, Ct> = HashMap::new();
+    let mut captured = vec![];
+    let mut cfgv = serde_json::to_value(&spec.cfg).unwrap();
+    cfgv["senders"] = json!(spec.senders);
+    ev.push(json!({"ev":"Reset","run":k,"cfg":cfgv}));
+    let guarded = |f: &mut dyn FnMut() -> Result<(), String>| -> (bool, String) {
+        match catch_unwind(AssertUnwindSafe(|| f())) {
+            Ok(Ok(())) => (true, String::new()),
+            Ok(Err(e)) => (false, e.chars().take(120).collect()),
+            Err(_) => (false, "PANIC".into()),
+        }
+    };
+    for a in &spec.acts {
+        match a.a.as_str() {
+            "RegLocal" => {
+                let c = local_cfg(&spec.cfg, &spec.senders, a.p, k);
+                let (ok, why) = guarded(&mut || rig.reg_local(a.p, c.clone()));
+                ev.push(json!({"ev":"RegLocal","p":a.p,"writer":c.writer,"ok":ok,"why":why}));
+            }
+            "MatchPart" => {
+                let (ok, why) = guarded(&mut || rig.match_part(a.p, a.q));
+                ev.push(json!({"ev":"MatchPart","p":a.p,"q":a.q,"ok":ok,"why":why}));
+            }
+            "MatchEp" => {
+                let (ok, why) = guarded(&mut || rig.match_ep(a.p, a.q));
+                ev.push(json!({"ev":"MatchEp","p":a.p,"q":a.q,"ok":ok,"why":why}));
+            }
+            "Tokens" => {
+                let epl = a.t == "ep";
+                let (ok, why) = guarded(&mut || rig.send_tokens(epl, a.p, a.q, a.d));
+                if ok && (epl == (lvl != 2)) {
+                    held.entry((a.d, a.p)).or_insert(a.q);
+                }
+                ev.push(json!({"ev":"Tokens","t":a.t,"p":a.p,"q":a.q,"d":a.d,"ok":ok,"why":why}));
+            }
+            "Encode" => {
+                let frame = frame_no(&a.frame);
+                let len = a.len.unwrap_or_else(|| pick_len(k, a.c, lvl, frame, a.al));
+                // a DATAFRAG of an empty sample does not exist
+                let len = if frame == 1 && len == 0 { 4 } else { len };
+                let plain = plain_bytes(k, len);
+                let sn = 1 + (k % 1000) as i64;
+                let r = catch_unwind(AssertUnwindSafe(|| rig.encode(lvl, a.p, &a.to, &plain, frame, sn)));
+                match r {
+                    Ok(Ok(enc)) => {
+                        ev.push(json!({"ev":"Encode","c":a.c,"p":a.p,"to":a.to,"frame":a.frame,"al":len % 4 == 0,"len":len,
+                                       "enc_len":enc.enc_len,"wire_len":enc.wire.len(),"transformed":enc.transformed,"ok":true,"why":""}));
+                        captured.push(enc.wire.clone());
+                        cts.insert(a.c, Ct { enc, p: a.p, to: a.to.clone(), frame, plain, sn });
+                    }
+                    Ok(Err(e)) => {
+                        ev.push(json!({"ev":"Encode","c":a.c,"p":a.p,"to":a.to,"frame":a.frame,"al":len % 4 == 0,"len":len,
+                                       "enc_len":0,"wire_len":0,"transformed":false,"ok":false,"why":e.chars().take(120).collect::<String>()}));
+                    }
+                    Err(_) => {
+                        ev.push(json!({"ev":"Encode","c":a.c,"p":a.p,"to":a.to,"frame":a.frame,"al":len % 4 == 0,"len":len,
+                                       "enc_len":0,"wire_len":0,"transformed":false,"ok":false,"why":"PANIC"}));
+                    }
+                }
+            }
+            "Decode" => {
+                let Some(ct) = cts.get(&a.c) else {
+                    ev.push(json!({"ev":"Skip","why":"no such ciphertext"}));
+                    continue;
+                };
+                let l = layout(lvl, ct.frame, &ct.enc, gcm);
+                if !l.ok && a.t != "none" {
+                    ev.push(json!({"ev":"Skip","why":"encoded form has not the expected layout"}));
+                    continue;
+                }
+                let mine = held.get(&(a.r, a.s)).and_then(|h| ct.to.iter().position(|x| x == h)).filter(|i| *i < l.entries.len());
+                let alt = if a.t == "swap_hdr" {
+                    catch_unwind(AssertUnwindSafe(|| rig.encode(lvl, ct.p, &ct.to, &ct.plain, ct.frame, ct.sn))).ok().and_then(|r| r.ok())
+                } else {
+                    None
+                };
+                let alts = alterations(&a.t, &ct.enc, &l, mine, alt.as_ref());
+                let (mut same, mut other, mut nodata, mut panic) = (0, 0, 0, 0);
+                let mut bad: Vec<Value> = vec![];
+                let mut why: HashMap<String, usize> = HashMap::new();
+                for (w, lab) in &alts {
+                    match catch_unwind(AssertUnwindSafe(|| rig.decode(lvl, a.r, a.s, w, ct.frame))) {
+                        Ok(Outcome::Plain(b)) => {
+                            if same_up_to_padding(&b, &ct.enc.reference) {
+                                same += 1;
+                            } else {
+                                other += 1;
+                            }
+                            if bad.len() < 3 {
+                                bad.push(json!([lab.0, lab.1]));
+                            }
+                        }
+                        Ok(Outcome::NoData(c)) => {
+                            nodata += 1;
+                            *why.entry(c).or_insert(0) += 1;
+                        }
+                        Err(_) => {
+                            panic += 1;
+                        }
+                    }
+                }
+                ev.push(json!({"ev":"Decode","r":a.r,"s":a.s,"c":a.c,"t":a.t,"n":alts.len(),"same":same,"other":other,
+                               "nodata":nodata,"panic":panic,"bad":bad,
+                               "dbg":format!("{:?} model:{}", { let mut w: Vec<_> = why.into_iter().collect(); w.sort(); w }, a.expect.clone().unwrap_or_default())}));
+            }
+            _ => {
+                ev.push(json!({"ev":"Skip","why":"unknown action"}));
+            }
+        }
+    }
+    captured
+}
+
+// ------------------------------------------------------------------ random / sweep generation
+fn combos() -> Vec<(String, String, bool, bool, String)> {
+    let mut v = vec![];
+    for kind in ["gmac", "gcm"] {
+        for k256 in [false, true] {
+            v.push(("payload".to_string(), kind.to_string(), false, k256, "w2r".to_string()));
+            for oa in [false, true] {
+                v.push(("msg".to_string(), kind.to_string(), oa, k256, "w2r".to_string()));
+                for dir in ["w2r", "r2w"] {
+                    v.push(("submsg".to_string(), kind.to_string(), oa, k256, dir.to_string()));
+                }
+            }
+        }
+    }
+    v
+}
+
+fn act(a: &str) -> Act {
+    Act { a: a.to_string(), ..Default::default() }
+}
+
+pub fn random_specs(seed: u64, runs: usize, _events: usize) -> Vec<RunSpec> {
+    let cb = combos();
+    let mut out = vec![];
+    for i in 0..runs {
+        let mut rng = StdRng::seed_from_u64(seed.wrapping_mul(1_000_003).wrapping_add(i as u64));
+        let (lvl, kind, oa, k256, dir) = cb[i % cb.len()].clone();
+        let len = (i / cb.len()) % 68;
+        let other = ["same", "none", "diff"][rng.gen_range(0..3)].to_string();
+        let senders: Vec<usize> = if rng.gen_bool(0.7) { vec![1] } else { vec![1, 3] };
+        let receivers: Vec<usize> = (1..=3).filter(|p| !senders.contains(p)).collect();
+        let is_msg = lvl == "msg";
+        // all registration calls, in a random order that respects what each call needs
+        let mut pending: Vec<Act> = vec![];
+        for p in 1..=3 {
+            pending.push(Act { p, ..act("RegLocal") });
+        }
+        for s in &senders {
+            for r in &receivers {
+                for (p, q) in [(*s, *r), (*r, *s)] {
+                    pending.push(Act { p, q, ..act("MatchPart") });
+                    if !is_msg {
+                        pending.push(Act { p, q, ..act("MatchEp") });
+                    }
+                }
+                // tokens of the level under test from the sender; in the other direction too (harmless)
+                let t = if is_msg { "part" } else { "ep" };
+                let d = if rng.gen_bool(0.12) { *receivers.choose(&mut rng).unwrap() } else { *r };
+                pending.push(Act { t: t.to_string(), p: *s, q: *r, d, ..act("Tokens") });
+                if rng.gen_bool(0.3) {
+                    pending.push(Act { t: t.to_string(), p: *r, q: *s, d: *s, ..act("Tokens") });
+                }
+            }
+        }
+        // omissions
+        if rng.gen_bool(0.3) {
+            let j = rng.gen_range(0..pending.len());
+            pending.remove(j);
+        }
+        pending.shuffle(&mut rng);
+        // stable "topological" pass: repeatedly take the first act whose prerequisites were issued
+        let mut acts: Vec<Act> = vec![];
+        let mut issued: Vec<(String, usize, usize)> = vec![];
+        let has = |iss: &Vec<(String, usize, usize)>, a: &str, p: usize, q: usize| iss.iter().any(|x| x.0 == a && x.1 == p && x.2 == q);
+        let mut progress = true;
+        while progress && !pending.is_empty() {
+            progress = false;
+            let mut j = 0;
+            while j < pending.len() {
+                let a = &pending[j];
+                let ready = match a.a.as_str() {
+                    "RegLocal" => true,
+                    "MatchPart" => has(&issued, "RegLocal", a.p, 0),
+                    "MatchEp" => has(&issued, "MatchPart", a.p, a.q),
+                    _ => {
+                        let m = if is_msg { "MatchPart" } else { "MatchEp" };
+                        has(&issued, m, a.p, a.q) && has(&issued, m, a.d, a.p)
+                    }
+                };
+                if ready {
+                    let a = pending.remove(j);
+                    issued.push((a.a.clone(), a.p, if a.a == "RegLocal" { 0 } else { a.q }));
+                    acts.push(a);
+                    progress = true;
+                } else {
+                    j += 1;
+                }
+            }
+        }
+        // whatever could not be ordered (an omitted prerequisite) is attempted anyway: the rig refuses
+        acts.append(&mut pending);
+        // encode
+        let p = *senders.choose(&mut rng).unwrap();
+        let mut to: Vec<usize> = receivers.iter().copied().filter(|_| rng.gen_bool(0.7)).collect();
+        if lvl == "payload" {
+            to.clear();
+        } else if to.is_empty() {
+            to.push(*receivers.choose(&mut rng).unwrap());
+        }
+        let frame = if dir == "r2w" {
+            "data"
+        } else if lvl == "payload" {
+            ["data", "frag", "raw"][rng.gen_range(0..3)]
+        } else {
+            ["data", "frag"][rng.gen_range(0..2)]
+        };
+        acts.push(Act { c: 1, p, to: to.clone(), frame: frame.to_string(), al: len % 4 == 0, len: Some(len), ..act("Encode") });
+        // decode: everybody else, for every claimed sender, every tamper class
+        let mut classes = vec!["none", "kind", "keyid", "session", "iv", "body", "cmac", "swap_hdr"];
+        if lvl == "payload" {
+            classes.push("rcount");
+        }
+        if is_msg {
+            classes.push("hdr");
+        }
+        if oa && lvl != "payload" {
+            classes.extend(["rmac_mine", "rkid_mine", "drop_mine"]);
+        }
+        for r in 1..=3usize {
+            if r == p {
+                continue;
+            }
+            for s in &senders {
+                if *s == r {
+                    continue;
+                }
+                for t in &classes {
+                    acts.push(Act { r, s: *s, c: 1, t: t.to_string(), ..act("Decode") });
+                }
+            }
+        }
+        out.push(RunSpec { cfg: Cfg { lvl, kind, oa, k256, dir, other: Some(other) }, senders, acts });
+    }
+    out
+}
+
+pub fn main(mode: &str, opt: &HashMap<String, String>) -> i32 {
+    // decode failures are logged by the crate through `log`; panics of the code under test are data
+    std::panic::set_hook(Box::new(|_| {}));
+    match mode {
+        "random" => {
+            let specs = random_specs(util::get(opt, "seed", 1), util::get(opt, "runs", 100), util::get(opt, "events", 0));
+            util::run_parallel(opt, specs, run_one)
+        }
+        "replay" => {
+            let mut specs: Vec<RunSpec> = util::read_jsonl(&opt["in"]);
+            // resolve what the model leaves open (concrete payload length, protection of the other
+            // endpoint level) from the run index NOW, so that the recorded spec replays identically
+            for (k, s) in specs.iter_mut().enumerate() {
+                if s.cfg.other.is_none() {
+                    s.cfg.other = Some(["same", "none", "diff"][k % 3].to_string());
+                }
+                let lvl = lvl_no(&s.cfg.lvl);
+                for a in s.acts.iter_mut().filter(|a| a.a == "Encode" && a.len.is_none()) {
+                    a.len = Some(pick_len(k, a.c, lvl, frame_no(&a.frame), a.al));
+                }
+            }
+            util::run_parallel(opt, specs, run_one)
+        }
+        _ => {
+            eprintln!("crypto driver: unknown mode {mode}");
+            2
+        }
+    }
 }
